@@ -41,6 +41,9 @@ partial def decTerm : List String → Option (Term × List String)
     let k ← n.toNat?
     pure (.var k, rest)
 
+/-- `usize::MAX` on the 64-bit targets the harness runs on -/
+def USIZE_MAX : Nat := 18446744073709551615
+
 def orderOf : String → Option Order
   | "NOR" => some .NOR | "CBN" => some .CBN | "HSP" => some .HSP | "HNO" => some .HNO
   | "APP" => some .APP | "CBV" => some .CBV | "HAP" => some .HAP | _ => none
@@ -93,9 +96,26 @@ def exec (line : String) : String :=
     (do
       let (t, r1) ← decTerm rest
       let (a, _) ← decTerm r1
+      -- the receiver after the call is part of the answer: on Err it must be the receiver before the call
+      pure (match Term.applyMut t a with
+        | (t', .ok ()) => "ok " ++ showTerm t'
+        | (t', .error e) => if t' == t then "err " ++ errName e else "err " ++ errName e ++ " CHANGED " ++ showTerm t')).getD "bad-op"
+  -- boundary operations: indices close to usize::MAX.  The crate refuses (panics) to create an index above usize::MAX;
+  -- for a single substitution that happens exactly when the model's (unbounded) result contains such an index
+  | "applyb" :: rest =>
+    (do
+      let (t, r1) ← decTerm rest
+      let (a, _) ← decTerm r1
       pure (match Term.apply t a with
-        | .ok t' => "ok " ++ showTerm t'
+        | .ok t' => if Term.maxIndex t' > USIZE_MAX then "PANIC" else "ok " ++ showTerm t'
         | .error e => "err " ++ errName e)).getD "bad-op"
+  | "reduceb" :: o :: rest =>
+    (do
+      let o' ← orderOf o
+      let (t, _) ← decTerm rest
+      pure (match reduce o' 1 FUEL t with
+        | some (t', c) => if Term.maxIndex t' > USIZE_MAX then "PANIC" else toString c ++ " " ++ showTerm t'
+        | none => "fuel")).getD "bad-op"
   | "reduce" :: o :: l :: rest =>
     (do
       let o' ← orderOf o
